@@ -203,6 +203,93 @@ def _one(ctx, rep, op, n_prior, base):
     shutil.rmtree(root, ignore_errors=True)
 
 
+class _Die(BaseException):
+    pass
+
+
+def _s3_images(ctx, rep):
+    """the same on object storage (both commit paths): the writer dies before its k-th mutating request, for every k of {create, append,
+    delete files}. The image is the store AT THAT INSTANT (whatever the dying interpreter's cleanup code does afterwards is discarded);
+    the dead writer's lock is left in place and aged past its lease. The image must be the pre- or the post-state (post only with the
+    pointer advanced), readable, open-able / creatable, and must accept a commit."""
+    import copy
+    import datetime as _dt
+    from .. import fakes3
+    for cas in (True, False):
+        for op in ("create", "append", "delfiles"):
+            k = 0
+            while k < 60:
+                with fakes3.S3Env(cas=cas) as env, fakes3.NoSleep():
+                    loc = "wh/c"
+                    fake = env.fake
+                    if op != "create":
+                        t = tablekit.create(loc)
+                        t.append_records(tablekit.rows(2, start=0, tag="a"))
+                        t.append_records(tablekit.rows(2, start=10, tag="b"))
+                        pre = _sig(reader.S3Store(fake, loc))
+                    else:
+                        pre = None
+                    state = {"n": 0, "image": None, "key": None}
+
+                    def hook(phase, opn, key, kw, state=state, k=k):
+                        if phase == "before" and opn in ("put", "delete") and state["image"] is None:
+                            if state["n"] == k:
+                                state["image"] = {k_: (o_.data, o_.etag, o_.mtime) for k_, o_ in fake.objects.items()}
+                                state["key"] = f"{opn} {key}"
+                                raise _Die()
+                            state["n"] += 1
+                    fake.hook = hook
+                    try:
+                        if op == "create":
+                            t = tablekit.create(loc)
+                        elif op == "append":
+                            tablekit.load(loc).append_records(tablekit.rows(2, start=500, tag="n"))
+                        else:
+                            h_ = tablekit.load(loc)
+                            _tx(h_, lambda tx: tx.delete_files(["/" + tablekit.data_paths(h_)[0]]))
+                    except BaseException:       # noqa: BLE001
+                        pass
+                    fake.hook = None
+                    if state["image"] is None:
+                        # the operation completed in fewer than k+1 mutating requests: its end state is the post-state; sweep done
+                        break
+                    post_store = {k_: (o_.data, o_.etag, o_.mtime) for k_, o_ in fake.objects.items()}
+                    # what the post-state looks like: run the operation to completion on a copy of the pre-image? simpler — the only
+                    # acceptable non-pre state is "the new snapshot / table is there and complete": judged structurally below
+                    fake.objects = {k_: fakes3._Obj(d_, e_, m_ - (_dt.timedelta(hours=2) if "/.locks/" in k_ else _dt.timedelta(0)))
+                                    for k_, (d_, e_, m_) in state["image"].items()}
+                    rep.evaluations += 1
+                    rep.nontrivial(["s3-crash", cas, op, k])
+                    rep.distribution[f"s3-crash:{op}"] += 1
+                    case = {"kind": "s3-crash-image", "conditional_writes": cas, "op": op, "died_before_request": k, "request": state["key"]}
+                    store = reader.S3Store(fake, loc)
+                    has_pointer = any(k_.endswith("metadata.version-hint.text") for k_ in fake.objects)
+                    problems = []
+                    try:
+                        if op == "create" and not has_pointer:
+                            t2 = tablekit.create(loc)           # pre-state of a creation: the location is creatable
+                        else:
+                            sig = _sig(store)
+                            if op != "create" and sig != pre:
+                                # not the pre-state: must be the complete post-state
+                                if sig[0] != pre[0] or len(sig[2]) != len(pre[2]) + 1:
+                                    problems.append(f"neither pre- nor post-state: {len(sig[1])} rows, {len(sig[2])} snapshots")
+                            t2 = tablekit.load(loc)
+                            if sorted(map(reader.rowkey, t2.scan())) != sorted(sig[1]):
+                                problems.append("library scan differs from the independent reader")
+                        t2.append_records(tablekit.rows(1, start=900, tag="after"))
+                        after = _sig(store)
+                        if not any("after" in str(r_) for r_ in after[1]):
+                            problems.append("the follow-up append is not visible")
+                    except reader.Broken as e:
+                        problems.append(f"image unreadable: {e}")
+                    except Exception as e:      # noqa: BLE001
+                        problems.append(f"reopen / follow-up commit raises {type(e).__name__}: {str(e)[:90]}")
+                    if problems:
+                        rep.violate(f"C03:s3-crash-image:{op}", f"S3 ({'CAS' if cas else 'plain'}) {op}, writer dies before request #{k} ({state['key']}): " + "; ".join(problems), case)
+                k += 1
+
+
 def run(ctx, model_ok):
     rep = Report()
     rep.rule = ("every os-level call boundary (temp-file creation, write, fsync, close, rename, unlink, directory fsync, makedirs) of "
@@ -218,6 +305,7 @@ def run(ctx, model_ok):
         for op in ("append", "delfiles", "expire", "delsnap", "gc", "append+expire", "delete+append"):
             for n in priors:
                 _one(ctx, rep, op, n, base)
+        _s3_images(ctx, rep)
         from . import c19
         c19.s3_dead_holder(ctx, rep, "C03:dead-writer-lock-wedges-the-table")
         rep.exhaustive = True
